@@ -1,0 +1,8 @@
+//go:build !verif
+
+// Package verifhook holds yield points used by the deterministic-simulation
+// harness. Without the "verif" build tag every hook is an empty function.
+package verifhook
+
+// Yield is a no-op unless built with the "verif" tag.
+func Yield(site string) {}
